@@ -9,6 +9,7 @@
     tokenizer_inverts_serializer
     ser_idempotent_partial builder_stream_not_idemOK
     ser_idempotent_builder_events ser_idempotent_builder ser_idempotent_parsed_text
+    mixed_stream_not_idempotent
     explicit_default_not_undeclared
     encode_roundtrip_text encode_roundtrip_attr charref_roundtrip
     attr_tab_lf_cr_not_recovered text_cr_not_recovered decl_encoding_echoed
@@ -321,6 +322,28 @@ example :
       some (.start ['a'] [(['x','m','l','n','s'], ['u']), (['x','m','l','n','s',':','n','s','1'], ['v']),
         (['x','m','l','n','s',':','n','s','2'], ['u']), (['n','s','1',':','x'], ['1']), (['n','s','2',':','y'], ['2'])]) := by
   refine ⟨by decide, by decide, by decide, by decide⟩
+
+/-- Boundary of the two idempotence theorems, with witness: a hand-made stream
+    that *mixes* builder-style elements with explicit namespace events is inside
+    `docOK` but in neither shape class, and idempotence fails there (model and
+    real code alike): `b` gets a made-up `xmlns=""` (binding `''`), the explicit
+    START_NS('', None) in front of `c` differs from it and is written again; the
+    second pass meets both as `None` and drops the second.  The property
+    quantifies over parsed documents and streams *without* explicit namespace
+    events, so this is outside it. -/
+theorem mixed_stream_not_idempotent :
+    let s : Stream := [.start ⟨['u'], ['a']⟩ [], .start ⟨[], ['b']⟩ [], .startNs [] noneUri,
+                       .start ⟨[], ['c']⟩ [], .end_ ⟨[], ['c']⟩, .endNs [], .end_ ⟨[], ['b']⟩,
+                       .end_ ⟨['u'], ['a']⟩]
+    docOK (emptyTag s) = true ∧ builderShaped (emptyTag s) = false ∧ idemOK defaultPref (emptyTag s) = false ∧
+    serRun SerSt.init (flatten defaultPref (emptyTag s)) =
+      some ['<','a',' ','x','m','l','n','s','=','"','u','"','>','<','b',' ','x','m','l','n','s','=','"','"','>',
+            '<','c',' ','x','m','l','n','s','=','"','"','/','>','<','/','b','>','<','/','a','>'] ∧
+    (reparseX PSt.init ((flatten defaultPref (emptyTag s)).map normF)).bind
+        (fun xs2 => serRun SerSt.init (flatten defaultPref xs2)) =
+      some ['<','a',' ','x','m','l','n','s','=','"','u','"','>','<','b',' ','x','m','l','n','s','=','"','"','>',
+            '<','c','/','>','<','/','b','>','<','/','a','>'] := by
+  refine ⟨by decide, by decide, by decide, by decide, by decide⟩
 
 /-- a namespaced document with declaration, DOCTYPE and mixed content is inside
     all hypotheses, and the text it is about exists -/
